@@ -419,3 +419,72 @@ func ruleR079(c *Ctx) {
 		}
 	}
 }
+
+// ---------------------------------------------------------------------------
+// R07.10 a function registered under the name of a math function is that function
+//
+// The table of static functions binds names of the language to Go functions.
+// Where the implementation of an entry is (a thin wrapper around) exactly one
+// function of package math, and package math has a function whose name is the
+// registered name, the two have to be the same function: "trunc" bound to
+// math.Floor is a copy of the neighbouring row. Names without a namesake in
+// package math (ln, sqr) are not looked at.
+
+func ruleR0710(c *Ctx) {
+	n := 0
+	for _, pkg := range c.RepoPkgs {
+		info := pkg.TypesInfo
+		for _, f := range pkg.Syntax {
+			ast.Inspect(f, func(x ast.Node) bool {
+				call, ok := x.(*ast.CallExpr)
+				if !ok || len(call.Args) != 2 {
+					return true
+				}
+				sel, ok := ast.Unparen(call.Fun).(*ast.SelectorExpr)
+				if !ok || sel.Sel.Name != "AddStaticFunction" {
+					return true
+				}
+				tv := info.Types[call.Args[0]]
+				if tv.Value == nil || tv.Value.Kind() != constant.String {
+					return true
+				}
+				name := constant.StringVal(tv.Value)
+				// the math functions the implementation refers to
+				used := map[*types.Func]bool{}
+				var mathPkg *types.Package
+				ast.Inspect(call.Args[1], func(y ast.Node) bool {
+					// do not descend into chained registrations of other names: the receiver chain is call.Fun, not Args[1]
+					if s2, ok := y.(*ast.SelectorExpr); ok {
+						if fn, ok := info.ObjectOf(s2.Sel).(*types.Func); ok && fn.Pkg() != nil && fn.Pkg().Path() == "math" {
+							used[fn] = true
+							mathPkg = fn.Pkg()
+						}
+					}
+					return true
+				})
+				if len(used) != 1 || mathPkg == nil || name == "" {
+					return true
+				}
+				var fn *types.Func
+				for u := range used {
+					fn = u
+				}
+				namesake, _ := mathPkg.Scope().Lookup(strings.ToUpper(name[:1]) + name[1:]).(*types.Func)
+				if namesake == nil {
+					return true
+				}
+				n++
+				key := fmt.Sprintf("value#static-function %s", name)
+				if namesake == fn {
+					c.OK(key, call.Pos(), "%q is bound to math.%s", name, fn.Name())
+				} else {
+					c.Violation(key, call.Pos(), "the static function %q is bound to math.%s although package math has the function %s: the entry computes another function than its name and description say (trunc bound to math.Floor is one too low for every negative argument with a fractional part)", name, fn.Name(), namesake.Name())
+				}
+				return true
+			})
+		}
+	}
+	if n < 8 {
+		c.Undecided("value#static-math-functions", token.NoPos, "only %d static functions with a namesake in package math found", n)
+	}
+}
